@@ -7,7 +7,7 @@ into what the conditional `let` returns, so a parser with k conditional fields i
 fields + `BlkPrevInfo after_merge`, no case split at all); evaluation of `Env.nat` on the record environment (`envNat_cons`); integer
 comparisons of the parsers (`Rd.vle`, `Rd.lowBit`) on decoded naturals and one-bit numbers.
 -/
-import TonVerif.Proofs.SrcTlbTx
+import TonVerif.Proofs.SrcTlbParsersTx
 import TonVerif.Spec.Tlb.PyViewBlk
 
 namespace TonVerif.Tlb.Blk
@@ -22,14 +22,37 @@ theorem vle_nat_one (a : Nat) : Rd.vle (.int a) (.int 1) = some (decide (a ≤ 1
   simp only [Rd.vle, Rd.toInt, Option.bind_eq_bind, Option.bind_some, Option.pure_def]
   congr 1; simp; omega
 
+/-- the number `Env.nat` reads off a field value -/
+def natOf : Val → Nat
+  | .int i => i.toNat
+  | .bool true => 1
+  | _ => 0
+
+theorem natOf_nat (k : Nat) : natOf (.int k) = k := by simp [natOf]
+
 theorem envNat_cons (k : String) (v : Val) (e : Env) (n : String) :
-    Env.nat ((k, v) :: e) n = if n == k then (match v with | .int i => i.toNat | .bool true => 1 | _ => 0) else Env.nat e n := by
-  simp only [Env.nat, List.lookup]
+    Env.nat ((k, v) :: e) n = if n == k then natOf v else Env.nat e n := by
+  simp only [Env.nat, List.lookup, natOf]
   cases h : n == k
   · simp
   · cases v with
     | bool b => cases b <;> rfl
     | _ => rfl
+
+/-- the decoded value is a natural number (what `uint n` decodes to) -/
+def IsNat (v : Val) : Prop := ∃ k : Nat, v = .int k
+
+theorem isNat_nat (k : Nat) : IsNat (.int k) := ⟨k, rfl⟩
+
+/-- `uint_keep` that also remembers that the value is a natural number (for parsers that compare two decoded fields) -/
+theorem uint_keepN (n : Nat) (s : Frag) (v : Val) (s' : Frag) :
+    ((uint n).dec s = some (v, s')) ↔ (Kept (uint n) s v s' ∧ (n ≠ 0 → Rd.loadUint n s = some (v, s')) ∧ IsNat v) :=
+  ⟨fun h => ⟨h, fun hn => refines_uint n hn s v s' h, Tx.uint_dec_nat n s v s' h⟩, fun h => h.1⟩
+
+theorem vle_nat_isNat (m : Nat) (v : Val) (hv : IsNat v) (h : m ≤ natOf v) : Rd.vle (.int m) v = some true := by
+  obtain ⟨k, rfl⟩ := hv
+  simp only [natOf_nat] at h
+  simp [Rd.vle, Rd.toInt, h]
 
 theorem lowBit_nat (n : Nat) : Rd.lowBit (.int n) = some (n % 2 == 1) := by
   simp only [Rd.lowBit, Rd.toInt, Option.bind_eq_bind, Option.bind_some, Option.pure_def]
@@ -39,8 +62,8 @@ theorem lowBit_nat (n : Nat) : Rd.lowBit (.int n) = some (n % 2 == 1) := by
     rw [Bool.eq_iff_iff]; simp; omega
   exact h2
 
-theorem bitInt_toNat (b : Bool) : (if b = true then (1 : Int) else 0).toNat = if b = true then 1 else 0 := by
-  cases b <;> simp
+theorem bitInt_toNat (b : Bool) : natOf (.int (if b = true then (1 : Int) else 0)) = if b = true then 1 else 0 := by
+  cases b <;> simp [natOf]
 
 theorem bit_eq_one (b : Bool) : ((if b = true then 1 else 0) = 1) = (b = true) := by cases b <;> simp
 
@@ -88,5 +111,45 @@ theorem viaRef_eq_bind1 (r : Bool → Frag → Val → Rd.R) (a : Val) (s : Frag
 
 theorem special_mk (e : Bool) (b : Bits) (r : List Cell) : Rd.special (Cell.mk e b r) = e := rfl
 theorem beginParse_mk (e : Bool) (b : Bits) (r : List Cell) : Rd.beginParse (Cell.mk e b r) = ⟨b, r⟩ := rfl
+
+/-! ### `Slice.load_hashmap` : an inline `Hashmap n X` -/
+
+/-- the Patricia walk started on the slice itself returns the entries of the decoded tree value, in order, and leaves what the
+    spec decoder leaves -/
+theorem dictWalkInline_sound (X : Codec) (rd : Frag → Rd.R) (w : Val → Val) (hrd : Refines rd X w) (n : Nat) (s : Frag) (tv : Val)
+    (s' : Frag) (h : (hashmapF X (n + 1) n).dec s = some (tv, s')) :
+    Rd.dictWalkInline rd n s = some (flattenF w (n + 1) n [] tv, s') := by
+  simp only [hashmapF, recd_dec, fld, dep, decFields_cons, decFields_nil] at h
+  obtain ⟨vs, ⟨lv, s1, hl, vs', ⟨nv, s2, hn, vs'', ⟨rfl, rfl⟩, rfl⟩, rfl⟩, rfl⟩ := h
+  have hget : Env.get [("label", lv)] "label" = lv := by simp [Env.get, List.lookup]
+  rw [hget] at hn
+  simp only [flattenF, get_label, get_node, List.nil_append]
+  simp only [Rd.dictWalkInline, hl]
+  unfold hmNode at hn
+  by_cases hle : labelLen lv ≤ n
+  · simp only [hle, if_true] at hn
+    by_cases hz : n - labelLen lv = 0
+    · simp only [hz, if_true] at hn ⊢
+      simp [hrd _ _ _ hn]
+    · simp only [hz, if_false] at hn ⊢
+      simp only [recd_dec, fld, decFields_cons, decFields_nil, ref_dec] at hn
+      obtain ⟨vs, ⟨a, s3, ⟨bs, b0, r0, more, rfl, ha, rfl⟩, vs', ⟨bb, s4, ⟨bs', b1, r1, more', hs, hb, rfl⟩, vs'', ⟨rfl, rfl⟩, rfl⟩, rfl⟩, rfl⟩ := hn
+      simp only [Frag.mk.injEq] at hs
+      obtain ⟨rfl, rfl⟩ := hs
+      simp only [get_left, get_right]
+      have h1 := dictWalk_sound X (fun _ => True) rd w (fun s v hd _ => ⟨_, hrd s v _ hd⟩) n (n - labelLen lv - 1)
+        (Rd.labelBitsOf lv ++ [false]) _ _ _ ha (fun _ _ => trivial)
+      have h2 := dictWalk_sound X (fun _ => True) rd w (fun s v hd _ => ⟨_, hrd s v _ hd⟩) n (n - labelLen lv - 1)
+        (Rd.labelBitsOf lv ++ [true]) _ _ _ hb (fun _ _ => trivial)
+      simp [h1, h2]
+  · simp [hle, failC] at hn
+
+/-- `S.load_hashmap(n, value_deserializer=rd)` against an inline `Hashmap n X` -/
+theorem hashmapK {rd X w} (h : Refines rd X w) (n : Nat) (s : Frag) (v : Val) (s' : Frag) :
+    ((hashmap n X).dec s = some (v, s')) ↔
+      (Kept (hashmap n X) s v s' ∧ Rd.loadHashmap n rd false s = some (Rd.dict (flattenF w (n + 1) n [] v), s')) := by
+  refine ⟨fun hd => ⟨hd, ?_⟩, fun hd => hd.1⟩
+  have := dictWalkInline_sound X rd w h n s v s' hd
+  simp [Rd.loadHashmap, this]
 
 end TonVerif.Tlb.Blk
